@@ -52,13 +52,15 @@ func factsOf(b []byte) csFacts {
 
 var foreignPara = "Injected: yes\nPackage: evil\n"
 
+var sharedRing openpgp.EntityList
+
 func execClearsign(vec J, out *Writer) {
 	if vec["k"].(string) == "cs_seq" {
 		// one process, one document, a sequence of keyrings: what an earlier read accepted must not
 		// influence a later one.  Every read is an ordinary "cs" observation; `in` keeps the whole
 		// sequence so that a replay runs it again from the start.
 		for i, kr := range L(vec["rings"]) {
-			one := J{"k": "cs", "doc": vec["doc"], "key": vec["key"], "keyring": kr, "mut": vec["mut"]}
+			one := J{"k": "cs", "doc": vec["doc"], "key": vec["key"], "keyring": kr, "mut": vec["mut"], "shared_ring": true}
 			execClearsignOne(one, out, J{"k": "cs_seq", "doc": vec["doc"], "key": vec["key"], "rings": vec["rings"], "mut": vec["mut"], "step": i + 1})
 		}
 		return
@@ -242,6 +244,11 @@ func execClearsignOne(vec J, out *Writer, echo J) {
 			el = none
 		}
 		ring = &el
+		if sh, _ := vec["shared_ring"].(bool); sh {
+			// the caller keeps ONE keyring variable and changes its contents between reads
+			sharedRing = el
+			ring = &sharedRing
+		}
 		ringNames = L(kr)
 	}
 	// the source: the bytes themselves, or ("via": "fault") a source that delivers them up to a point, fails once with
